@@ -426,7 +426,7 @@ def play_hand(cfg, pol, monitors, prop=None, max_ops=None):
         ctx.pol = pol
         try:
             state = ctx.state
-            if state is None:
+            if state is None or 'ctor_exc' in ctx.data:
                 return ctx
             cap = max_ops or op_bound(state)
             steps = 0
@@ -463,7 +463,7 @@ def replay_script(cfg, script, monitors, prop=None, stop_at=None):
         ctx.pol = None
         try:
             state = ctx.state
-            if state is None:
+            if state is None or 'ctor_exc' in ctx.data:
                 return ctx
             for k, (name, args) in enumerate(script):
                 if stop_at is not None and k >= stop_at:
